@@ -466,7 +466,14 @@ func (t *sseClientTransport) sendResponseMessage(response interface{}) {
 		return
 	}
 
-	ctx, cancel := context.WithTimeout(context.Background(), 30*time.Second)
+	// The answer belongs to the SSE stream it arrived on: inherit that stream's context values (the handshake's).
+	t.sseConn.mutex.Lock()
+	parent := t.sseConn.ctx
+	t.sseConn.mutex.Unlock()
+	if parent == nil {
+		parent = context.Background()
+	}
+	ctx, cancel := context.WithTimeout(parent, 30*time.Second)
 	defer cancel()
 
 	httpReq, err := http.NewRequestWithContext(ctx, http.MethodPost, t.endpoint.String(), bytes.NewReader(respBytes))
@@ -483,6 +490,16 @@ func (t *sseClientTransport) sendResponseMessage(response interface{}) {
 	for key, values := range t.httpHeaders {
 		for _, value := range values {
 			httpReq.Header.Add(key, value)
+		}
+	}
+
+	// Apply HTTP before-request functions.
+	if t.client != nil {
+		if err := t.client.applyHTTPBeforeRequest(ctx, httpReq); err != nil {
+			if t.logger != nil {
+				t.logger.Errorf("HTTP before-request failed: %v", err)
+			}
+			return
 		}
 	}
 
